@@ -146,6 +146,7 @@ struct gsnap { uint64_t cell_obj, cell_off; int cell_st, cell_val; _Bool tok_on;
                                     (gs).cell_off < (sn).data_off + (uint64_t)(hi) * ESZ)
 
 /* ------------------------------------------------------------------------------------------------ operation-level helpers */
+extern uint64_t g_pos, g_pos2;   /* positions designated by iterator arguments */
 extern _Bool g_alias;      /* the value argument is element g_src of the container itself */
 extern uint64_t g_src;
 #if FLAVOUR == FL_STATIC
@@ -165,7 +166,10 @@ extern uint64_t g_src;
 /* an object outside the container that may carry the tracked cell / token */
 #define EXT_OK(v) ((g_cell_obj != OBJ(v) || (g_cell_off == OFF(v) && g_cell_st == ST_LIVE)) && (!g_tok_on || g_tok_obj != OBJ(v) || g_tok_off == OFF(v)))
 /* value argument: element g_src of the container, or a live object outside it */
-#define ARG_REQ(v) ((g_alias ==> (g_src < V_SIZE(self) && (v) == V_DATA(self) + g_src)) && (!g_alias ==> (__CPROVER_is_fresh(v, ESZ) && EXT_OK(v))))
+#define ARG_REQ(v) ((g_alias ==> (g_src < V_SIZE(self) && (v) == V_AT(self, g_src))) && (!g_alias ==> (__CPROVER_is_fresh(v, ESZ) && EXT_OK(v))))
+/* iterator argument = element index g_pos of the container */
+#define V_AT(p, i) L0_PADD(V_DATA(p), +, (i))
+#define POS_REQ(it, idx, maxidx) ((idx) <= (maxidx) && (it) == V_AT(self, idx))
 #define PRE_TOK_AT(v) (pre_g.tok_on && pre_g.tok_obj == OBJ(v) && pre_g.tok_off == OFF(v))
 /* old elements [lo,hi) are now at their old index + shift */
 #define V_ELEMS_KEPT(lo, hi, shift) (!PRE_TOK_IN(pre_g, pre_self, lo, hi) || TOK_AT(V_DATA(self), PRE_TOK_IDX(pre_g, pre_self) + (shift)))
